@@ -21,6 +21,7 @@ import (
 	"github.com/zishang520/engine.io/v2/config"
 	"github.com/zishang520/engine.io/v2/engine"
 	"github.com/zishang520/engine.io/v2/types"
+	wtgo "github.com/zishang520/webtransport-go"
 	"verifrt/vsched"
 )
 
@@ -60,6 +61,7 @@ type World struct {
 	X        *vsched.Exec
 	Srv      engine.Server
 	Handler  http.Handler
+	WT       *wtgo.Server // webtransport-go server handed to the session handler (created on first use)
 	Events   []Event
 	Socks    []*SockRec
 	ByID     map[string]*SockRec
